@@ -17,7 +17,7 @@ ASSUMPTIONS = ['expanded element names are unique per content model and wildcard
                'Python re on the expanded content model agrees with the derivative matcher or the case is dropped (oracle_disagreements)',
                'only the built-in simple types string/int/boolean/token/NMTOKEN/decimal/date with clear-cut literals are used; datatypes proper belong to C09',
                'error *codes* are only matched coarsely (class of codes per planted rule)']
-BUDGET = {'quick': 28, 'thorough': 400}
+BUDGET = {'quick': 20, 'thorough': 260}
 WALLCAP = {'quick': 420, 'thorough': 3000}
 
 # ---- error code tables (parsed from the tree that is being checked) -----------------------------------------
@@ -51,11 +51,11 @@ CLASS = {
     'elem-fixed': ['FixedDifferentFromActual', 'NotSameAsFixedValue'],
     'child-in-simple': ['SimpleTypeHasChild', 'ElementNotValidForContent', 'ElementNotDefined'],
     'nil-notnillable': ['NillNotAllowed'],
-    'nil-content': ['NilAttrNotEmpty'],
+    'nil-content': ['NilAttrNotEmpty', 'NoCharDataInCM', 'ElementNotValidForContent', 'NillNotAllowed', 'NotEnoughElemsForCM', 'SimpleTypeHasChild'],
     'nil-fixed': ['NilAttrNotEmpty', 'NillNotAllowed', 'FixedDifferentFromActual'],
     'nil-lexical': ['DatatypeError', 'DatatypeValidationFailure', 'NillNotAllowed'],
-    'xsitype-unknown': ['BadXsiType'],
-    'xsitype-notderived': ['NonDerivedXsiType', 'BadXsiType'],
+    'xsitype-unknown': ['BadXsiType', 'NoAbstractInXsiType'],
+    'xsitype-notderived': ['NonDerivedXsiType', 'BadXsiType', 'NoAbstractInXsiType'],
     'xsitype-blocked': ['TypeNoSubforBlock', 'NonDerivedXsiType', 'ElemNoSubforBlock'],
     'abstract-elem': ['NoDirectUseAbstractElement'],
     'abstract-type': ['NoUseAbstractType', 'NoAbstractInXsiType'],
@@ -282,6 +282,15 @@ def check_cm(ctx, ex, c, tier):
     for kind, n in docs:
         if kind.endswith('(excl-numeric)'): st_.excluded_known[NIL_NUMERIC] += 1
         tags = orc.assess_root(n)
+        if 'nil-with-default' in orc.flags: st_.excluded_known[NIL_DEFAULT] += 1; continue
+        if 'nil-false-on-nillable' in orc.flags: st_.excluded_known[NIL_FALSE_LEAK] += 1; continue
+        if 'same-local-attrs' in orc.flags: st_.excluded_known[ATTR_DUP_FATAL] += 1; continue
+        if 'fixed-elem-invalid-literal' in orc.flags: st_.excluded_known[ELEM_FIXED_FATAL] += 1; continue
+        if 'xsi-in-skip' in orc.flags: st_.excluded_known[XSI_IN_SKIP] += 1; continue
+        amb = [f for f in orc.flags if f.startswith('ambiguous:')]
+        if amb:          # readings differ (R2): outside the domain, dropped and counted
+            for f in amb: st_.labels['dropped:' + f] += 1
+            continue
         rendered.append((kind, xm.render_instance(n, hint=hint_for(s) if cfg['route'] == 'hint' else None), tags, n))
     if cfg['route'] == 'hint':
         # slow route (schema re-read per document): a deterministic sample
@@ -337,32 +346,53 @@ def deep_case(draw, tier):
     return s, cfg, docs
 
 PSVI_LOCKED = 'C08-psvi-lockedpool-complextype'
+SG_PSVI_NULL = 'C08-sg-psvi-null-xsmodel'
+NIL_DEFAULT = 'C08-nil-with-default'
+NIL_FALSE_LEAK = 'C08-nil-false-leaks-to-next-element'
+ATTR_DUP_FATAL = 'C08-qualified-attr-same-local-fatal'
+ELEM_FIXED_FATAL = 'C08-elem-fixed-invalid-literal-fatal'
+XSI_IN_SKIP = 'C08-xsi-attrs-checked-in-skipped-content'
 
-def check_info(ex, s, texts, cfg, node, doc_nohint, orc):
+def info_case(s, texts, cfg, node, orc):
+    use_hint = cfg['scanner'] == 'SG' or cfg['route'] == 'hint'
+    exp = [[list(k), tn, ({'{%s}%s' % a: v for a, v in da.items()} if da is not None else None), dt] for k, tn, da, dt in xm.expected_info(orc, node)]
+    return {'lane': 'info', 'schemas': texts, 'load': [s.sysid], 'cfg': cfg, 'use_hint': use_hint,
+            'doc': xm.render_instance(node, hint=hint_for(s) if use_hint else None), 'expect_info': exp}
+
+def run_info(ex, case):
     """reported type names / defaulted attributes / element default text on a schema-valid instance (DOM + PSVI)"""
+    cfg = case['cfg']; texts = case['schemas']
     c2 = dict(cfg); c2['api'] = 'dom'; c2['psvi'] = 1
-    req = {'kind': 'xsd', 'api': 'dom', 'feat': feat_string(c2), 'load': s.sysid, 'n': 1, 'mode': 'ced', 'lock': 0, 'doc0': doc_nohint.encode('utf-8')}
-    for k, v in texts.items(): req['ent:' + k] = v.encode('utf-8')
-    _, res = parse_xsd_resp(ex.request(req, timeout=120))
-    exp = xm.expected_info(orc, node)
+    if case['use_hint']:
+        # SG + PSVI + grammar taken from the pool dereferences a null XSModel (known finding SG_PSVI_NULL): SG goes through the hint route
+        req = {'kind': 'parse', 'api': 'dom', 'feat': feat_string(c2), 'doc': case['doc'].encode('utf-8')}
+        for k, v in texts.items(): req['ent:' + k] = v.encode('utf-8')
+        res = [[l.split('\t') for l in ex.request(req, timeout=120).split('\n') if l and not l.startswith('#')]]
+    else:
+        # pool left unlocked: with a locked pool element type definitions of complex types are not reported (known finding PSVI_LOCKED)
+        req = {'kind': 'xsd', 'api': 'dom', 'feat': feat_string(c2), 'load': ','.join(case['load']), 'n': 1, 'mode': 'ced', 'lock': 0, 'doc0': case['doc'].encode('utf-8')}
+        for k, v in texts.items(): req['ent:' + k] = v.encode('utf-8')
+        _, res = parse_xsd_resp(ex.request(req, timeout=120))
+    exp = case['expect_info']
     got = []; cur = None
     for l in res[0]:
         if l[0] == 'SE':
-            cur = {'key': l[1], 'type': l[3][1:] if len(l) > 3 else None, 'dattrs': {}, 'text': ''}; got.append(cur); last = cur
+            cur = {'key': l[1], 'type': l[3][1:] if len(l) > 3 else None, 'dattrs': {}, 'text': ''}; got.append(cur)
         elif l[0] == 'A' and cur is not None:
             if l[4].startswith('0'): cur['dattrs'][l[1]] = xv.unesc(l[5]) if len(l) > 5 else ''
         elif l[0] == 'T' and cur is not None: cur['text'] += xv.unesc(l[1])
-        elif l[0] == 'EE': pass
         elif l[0] in ('ERR', 'EXC'): return 'valid instance reported %r in the DOM+PSVI run' % (l,)
     if len(got) != len(exp): return 'element count differs: expected %d, DOM has %d' % (len(exp), len(got))
     for e, g in zip(exp, got):
         key, tn, dattrs, dtext = e
-        if g['key'] != '{%s}%s' % key: return 'element order differs at %r: %r' % (key, g['key'])
+        if g['key'] != '{%s}%s' % tuple(key): return 'element order differs at %r: %r' % (key, g['key'])
         if tn is not None and g['type'] != tn: return 'element %r: reported type %r, governing type %r' % (key, g['type'], tn)
-        if dattrs is not None:
-            ed = {'{%s}%s' % k: v for k, v in dattrs.items()}
-            if ed != g['dattrs']: return 'element %r: attributes supplied by default/fixed differ: expected %r, reported %r' % (key, ed, g['dattrs'])
-        if dtext is not None and g['text'] != dtext: return 'element %r: default/fixed content %r expected, reported %r' % (key, dtext, g['text'])
+        if dattrs is not None and dattrs != g['dattrs']:
+            return 'element %r: attributes supplied by default/fixed differ: expected %r, reported %r' % (key, dattrs, g['dattrs'])
+        if dtext is not None:
+            bt = tn.split('}')[1]
+            if not xm.simple_valid(bt, g['text']) or xm.simple_value(bt, g['text']) != xm.simple_value(bt, dtext):
+                return 'element %r: default/fixed content %r expected (value space of %s), reported %r' % (key, dtext, bt, g['text'])
     return None
 
 def check_deep(ctx, ex, c, tier):
@@ -382,6 +412,15 @@ def check_deep(ctx, ex, c, tier):
     rendered = []
     for kind, n in docs:
         tags = orc.assess_root(n)
+        if 'nil-with-default' in orc.flags: st_.excluded_known[NIL_DEFAULT] += 1; continue
+        if 'nil-false-on-nillable' in orc.flags: st_.excluded_known[NIL_FALSE_LEAK] += 1; continue
+        if 'same-local-attrs' in orc.flags: st_.excluded_known[ATTR_DUP_FATAL] += 1; continue
+        if 'fixed-elem-invalid-literal' in orc.flags: st_.excluded_known[ELEM_FIXED_FATAL] += 1; continue
+        if 'xsi-in-skip' in orc.flags: st_.excluded_known[XSI_IN_SKIP] += 1; continue
+        amb = [f for f in orc.flags if f.startswith('ambiguous:')]
+        if amb:          # readings differ (R2): outside the domain, dropped and counted
+            for f in amb: st_.labels['dropped:' + f] += 1
+            continue
         rendered.append((kind, xm.render_instance(n, hint=hint_for(s) if cfg['route'] == 'hint' else None), tags, n))
     if cfg['route'] == 'hint':
         results = [run_hint(ex, texts, cfg, d[1]) for d in rendered]
@@ -398,15 +437,12 @@ def check_deep(ctx, ex, c, tier):
         if bad: raise PropertyFailure(case_dict('deep', texts, load, cfg, doc, not tags, tags, 'doc kind %s' % kind), bad)
         if not tags and ninfo < 4:
             ninfo += 1
-            plain = xm.render_instance(n)
-            bad = check_info(ex, s, texts, cfg, n, plain, orc)
-            st_.note(xv.sha([texts, plain, 'info']), True, ['lane:info'])
-            if bad:
-                raise PropertyFailure({'lane': 'info', 'schemas': texts, 'load': load, 'cfg': cfg, 'doc': plain, 'model': s_to_json(s), 'note': kind}, bad)
+            if cfg['scanner'] == 'SG' and cfg['route'] != 'hint': st_.excluded_known[SG_PSVI_NULL] += 1
+            ic = info_case(s, texts, cfg, n, orc)
+            bad = run_info(ex, ic)
+            st_.note(xv.sha([texts, ic['doc'], 'info']), True, ['lane:info'])
+            if bad: raise PropertyFailure(ic, bad)
     st_.sample({'lane': 'deep', 'cfg': cfg, 'docs': len(rendered), 'schema': texts[s.sysid][:500]})
-
-def s_to_json(s):
-    return None
 
 # ---- invalid-schema lane ---------------------------------------------------------------------------------------------------
 @st.composite
@@ -448,7 +484,8 @@ def run_case(case, ex):
             prob = load_problem(lload, case['expect_load_errors'])
             return (prob is None), prob or 'ok'
         if case['lane'] == 'info':
-            return False, 'info-lane cases are re-checked from the model; see detail in the finding file' if False else replay_info(case, ex)
+            bad = run_info(ex, case)
+            return (bad is None), bad or 'ok'
         if cfg.get('route') == 'hint':
             lines = run_hint(ex, case['schemas'], cfg, case['doc'])
         else:
@@ -466,26 +503,27 @@ def run_case(case, ex):
         return False, 'executor died rc=%s\n%s' % (e.rc, e.stderr[-3000:])
 
 def replay(case, ctx):
-    return run_case(case, ctx.executor('xv_xsd'))
+    if case.get('lane') == 'died': return True, 'executor-death cases carry no single document; see the stderr in the finding file'
+    return run_case(case, ctx.executor('xv_xsd', extra_env=XENV))
 
 def classify(case, detail):
     cfg = case.get('cfg', {})
     return None
 
-def worker(ctx):
-    ex = ctx.executor('xv_xsd')
-    tier = ctx.tier if ctx.tier in ('quick', 'thorough') else 'quick'
-    def prop_cm(c):
-        try:
-            check_cm(ctx, ex, c, tier)
-        except xv.ExecutorDied as e:
-            s, cfg, foreign, extra = c
-            raise PropertyFailure({'lane': 'died', 'schemas': xm.render_schema(s), 'cfg': cfg}, 'executor died rc=%s\n%s' % (e.rc, e.stderr[-3000:]))
-    hyp_run(ctx, cm_case(tier), prop_cm, ctx.budget, batches=4)
+XENV = {'ASAN_OPTIONS': xv.ASAN_ENV['ASAN_OPTIONS'] + ':quarantine_size_mb=16'}
 
-def replay_info(case, ex):
-    # the expectation is stored with the case (list of [key, type, dattrs, text])
-    return True, 'info case without stored expectation'
+def worker(ctx):
+    ex = ctx.executor('xv_xsd', extra_env=XENV)
+    mult = {'cm': 1, 'deep': 2, 'bad': 1}
+    for k, (name, strat, fn) in enumerate(dev_lanes(ctx, ex)):
+        def prop(c, fn=fn, name=name):
+            try:
+                fn(c)
+            except xv.ExecutorDied as e:
+                s = c[0]
+                raise PropertyFailure({'lane': 'died', 'in_lane': name, 'schemas': xm.render_schema(s), 'cfg': c[1] if isinstance(c[1], dict) else {}},
+                                      'executor died rc=%s\n%s' % (e.rc, e.stderr[-3000:]))
+        hyp_run(ctx, strat, prop, max(4, ctx.budget * mult[name]), batches=4 if name != 'bad' else 2, seed_salt=101 * k)
 
 def dev_lanes(ctx, ex):
     """(name, strategy, property function) per lane -- used by the development runner and by worker()"""
